@@ -8,8 +8,7 @@ Variable conc_exec : ucfg -> nat -> bool -> nid -> ms -> list val -> ms * list v
 Hypothesis conc_exec_ext : forall c k st n s items s' rs,
     conc_exec c k st n s items = (s', rs) -> ext s s'.
 
-Definition has_user_post (c : ucfg) : bool :=
-  match u_post c with FDirect | FRes | FAny => true | _ => false end.
+Definition has_user_post (c : ucfg) : bool := has_post c.
 
 Definition is_post_event (n : nid) (e : event) : Prop :=
   match ev_call e with
@@ -23,8 +22,8 @@ Lemma node_post_last c n s p x s' a :
   node_post o c n s p x = (s', inl a) ->
   exists ev, log s' = log s ++ [ev] /\ is_post_event n ev /\ ret_act (ev_resp ev) = inl a.
 Proof.
-  unfold has_user_post, node_post. destruct (u_post c); try discriminate; intros _ H;
-    step_in H; inv H; apply emit_spec in Eemit; destruct Eemit as [cn [_ [L _]]];
+  unfold has_user_post, node_post. intros -> H.
+  step_in H; inv H; apply emit_spec in Eemit; destruct Eemit as [cn [_ [L _]]];
     eexists; split; try exact L; split; cbn; auto.
 Qed.
 
@@ -104,9 +103,9 @@ Proof. unfold visible. apply filter_app. Qed.
 
 Lemma last_post_act_snoc n tr ev a0 :
   is_post_event n ev -> ret_act (ev_resp ev) = inl a0 ->
-  last_post_act (visible (tr ++ [ev])) = Some a0.
+  last_post_act (tr ++ [ev]) = Some a0.
 Proof.
-  intros Hev Hr. rewrite visible_app. unfold is_post_event in Hev.
+  intros Hev Hr. unfold is_post_event in Hev.
   destruct ev as [[c r] cn]. cbn in *.
   destruct c; try contradiction; cbn; unfold last_post_act; rewrite rev_app_distr; cbn;
     now rewrite Hr.
@@ -114,7 +113,7 @@ Qed.
 
 Lemma spec_C18_model_run sc s s' oc :
   model_run sc s = Some (s', oc) ->
-  spec_C18_run (root_has_post sc) (visible (skipn (length (log s)) (log s'))) (pair_of_outcome oc) = true.
+  spec_C18_run (root_has_post sc) (skipn (length (log s)) (log s')) (pair_of_outcome oc) = true.
 Proof.
   unfold model_run. intros H.
   destruct oc as [a|e]; cbn [pair_of_outcome spec_C18_run]; [|apply Nat.eqb_refl].
@@ -127,7 +126,7 @@ Proof.
   destruct FUEL as [|f] eqn:HF; [discriminate|]. cbn [run] in H.
   destruct (table_of (es_nodes sc) (es_root sc)) as [[c|start conns|c conc stop]|]; try discriminate.
   - inv H. match goal with H : run_user _ _ _ _ = _ |- _ =>
-      apply run_user_done_post in H; [|unfold has_user_post; destruct (u_post c); auto; discriminate] end.
+      apply run_user_done_post in H; [|exact Hrp] end.
     destruct H1 as [evs [ev [a0 [L [Hev [Hr Ha]]]]]].
     rewrite L, skipn_app_exact, (last_post_act_snoc _ _ _ _ Hev Hr).
     rewrite Ha. unfold norm_act. apply Nat.eqb_refl.
